@@ -1,2 +1,308 @@
-(* Proofs/SamProofsB.v *)
+(* Proofs/SamProofsB.v — tags (text, split, parse), sorting, and the line-level
+   round trip: the line written for a record in the domain is parsed back to
+   the same record. *)
+From Coq Require Import String Permutation Sorting.Sorted.
 From Bio Require Import Base.
+From Bio.Model Require Import Sam.
+From Bio.Spec Require Import SamSpec.
+From Bio.Proofs Require Import SamProofs.
+Open Scope N_scope.
+
+(* ================================================================== *)
+(* byte-string equality                                                *)
+
+Lemma beqb_refl : forall a, beqb a a = true.
+Proof. induction a as [|x a IH]; [reflexivity|]. cbn [beqb]. now rewrite N.eqb_refl, IH. Qed.
+
+Lemma beqb_eq : forall a b, beqb a b = true -> a = b.
+Proof.
+  induction a as [|x a IH]; intros [|y b] H; try discriminate; [reflexivity|].
+  cbn [beqb] in H. apply andb_prop in H. destruct H as [H1 H2].
+  apply N.eqb_eq in H1. apply IH in H2. now subst.
+Qed.
+
+Lemma beqb_neq : forall a b, a <> b -> beqb a b = false.
+Proof.
+  intros a b H. destruct (beqb a b) eqn:E; [|reflexivity].
+  apply beqb_eq in E. contradiction.
+Qed.
+
+(* ================================================================== *)
+(* sort.Strings                                                        *)
+
+Lemma bcompare_antisym : forall a b, bcompare b a = CompOpp (bcompare a b).
+Proof.
+  induction a as [|x a IH]; intros [|y b]; try reflexivity.
+  cbn [bcompare]. rewrite (N.compare_antisym x y).
+  destruct (x ?= y); cbn [CompOpp]; [apply IH|reflexivity|reflexivity].
+Qed.
+
+Lemma ble_total : forall a b, ble a b = false -> ble b a = true.
+Proof.
+  intros a b H. unfold ble in *. rewrite (bcompare_antisym a b).
+  destruct (bcompare a b); cbn [CompOpp]; try discriminate; reflexivity.
+Qed.
+
+Lemma ble_le : forall a b, ble a b = true -> bytes_le a b.
+Proof. intros a b H. unfold ble, bytes_le in *. destruct (bcompare a b); congruence. Qed.
+
+Lemma insert_sorted_perm : forall x l, Permutation (insert_sorted x l) (x :: l).
+Proof.
+  intros x l. induction l as [|y l IH]; [reflexivity|].
+  cbn [insert_sorted]. destruct (ble x y); [reflexivity|].
+  rewrite IH. apply perm_swap.
+Qed.
+
+Lemma sort_strings_perm : forall l, Permutation (sort_strings l) l.
+Proof.
+  induction l as [|x l IH]; [reflexivity|].
+  cbn [sort_strings fold_right]. fold (sort_strings l).
+  rewrite insert_sorted_perm. now constructor.
+Qed.
+
+Lemma insert_sorted_sorted : forall x l, Sorted bytes_le l -> Sorted bytes_le (insert_sorted x l).
+Proof.
+  intros x l H. induction H as [|y l Hs IH Hd]; [repeat constructor|].
+  cbn [insert_sorted]. destruct (ble x y) eqn:E.
+  - constructor; [now constructor|]. constructor. now apply ble_le.
+  - constructor; [exact IH|].
+    destruct l as [|z l]; cbn [insert_sorted].
+    + constructor. apply ble_le. now apply ble_total.
+    + destruct (ble x z).
+      * constructor. apply ble_le. now apply ble_total.
+      * constructor. now inversion Hd.
+Qed.
+
+Lemma sort_strings_sorted : forall l, Sorted bytes_le (sort_strings l).
+Proof.
+  induction l as [|x l IH]; [constructor|].
+  cbn [sort_strings fold_right]. fold (sort_strings l). now apply insert_sorted_sorted.
+Qed.
+
+(* ================================================================== *)
+(* one tag: text -> split -> typed value                               *)
+
+Lemma cut_at_app : forall c a b, nosep c a -> cut_at c (a ++ c :: b) = Some (a, b).
+Proof.
+  intros c a b H. induction H as [|x a Hx Ha IH].
+  - cbn [app cut_at]. now rewrite N.eqb_refl.
+  - cbn [app cut_at]. now rewrite Hx, IH.
+Qed.
+
+Lemma tag_type_not_colon : forall v, (tag_type v =? COLON) = false.
+Proof. destruct v; reflexivity. Qed.
+
+Lemma split_tag_text : forall o name v, nosep COLON name ->
+  split_tag (tag_text o (name, v)) = Some (name, [tag_type v], tag_value o v).
+Proof.
+  intros o name v H. unfold split_tag, tag_text. cbn [fst snd].
+  rewrite cut_at_app by assumption.
+  cbn [cut_at]. rewrite tag_type_not_colon. now rewrite N.eqb_refl.
+Qed.
+
+Lemma parse_value_text : forall o v, tagval_ok o v ->
+  parse_tag_value o [tag_type v] (tag_value o v) = Some v.
+Proof.
+  intros o v H. unfold parse_tag_value.
+  destruct v; cbn [tag_type tag_value tagval_ok] in *; cbn [beqb N.eqb Pos.eqb andb].
+  - reflexivity.
+  - now rewrite atoi_itoa.
+  - destruct H as [H _]. now rewrite H.
+  - reflexivity.
+  - now rewrite hex_decode_encode.
+Qed.
+
+Lemma tag_value_clean : forall o v, tagval_ok o v -> tsv_clean (tag_value o v).
+Proof.
+  intros o v H. destruct v; cbn [tag_value tagval_ok] in *.
+  - constructor; [exact H|constructor].
+  - apply itoa_clean.
+  - apply H.
+  - exact H.
+  - apply hex_encode_clean.
+Qed.
+
+Lemma tag_text_clean : forall o t, tag_ok o t -> tsv_clean (tag_text o t).
+Proof.
+  intros o [name v] [Hn Hv]. cbn [fst snd] in *. unfold tag_text, tsv_clean. cbn [fst snd].
+  apply clean_app.
+  - eapply clean_sub; [exact Hn|]. intros x Hx. now right.
+  - constructor; [reflexivity|]. constructor; [destruct v; reflexivity|].
+    constructor; [reflexivity|]. now apply tag_value_clean.
+Qed.
+
+(* ================================================================== *)
+(* the Go map being filled                                             *)
+
+Lemma tag_set_fresh : forall k v m, ~ In k (map fst m) -> tag_set k v m = m ++ [(k, v)].
+Proof.
+  intros k v m. induction m as [|[k' v'] m IH]; intro H; [reflexivity|].
+  cbn [tag_set app]. cbn [map fst In] in H.
+  rewrite beqb_neq by tauto. rewrite IH by tauto. reflexivity.
+Qed.
+
+Lemma parse_tags_texts : forall o l m, Forall (tag_ok o) l -> NoDup (map fst (m ++ l)) ->
+  parse_tags_from o m (map (tag_text o) l) = Ok (m ++ l).
+Proof.
+  intros o l. induction l as [|[k v] l IH]; intros m Hok Hnd.
+  - cbn. now rewrite app_nil_r.
+  - inversion Hok as [|? ? Hkv Hl]; subst.
+    cbn [map parse_tags_from].
+    destruct Hkv as [Hk Hv]. cbn [fst snd] in Hk, Hv.
+    rewrite split_tag_text by (eapply clean_nosep; [exact Hk|now left]).
+    rewrite parse_value_text by assumption.
+    rewrite map_app in Hnd. cbn [map fst] in Hnd.
+    pose proof (NoDup_remove_2 _ _ _ Hnd) as Hfresh.
+    rewrite tag_set_fresh by (intro Hin; apply Hfresh; apply in_or_app; now left).
+    rewrite IH; [now rewrite <- app_assoc|assumption|].
+    rewrite <- app_assoc. cbn [app]. rewrite map_app. exact Hnd.
+Qed.
+
+(* the sorted texts are the texts of a rearrangement of the map *)
+Lemma tags_text_perm : forall o m,
+  exists m', tags_text o m = map (tag_text o) m' /\ Permutation m m'.
+Proof.
+  intros o m. unfold tags_text.
+  apply Permutation_map_inv. apply sort_strings_perm.
+Qed.
+
+Lemma parse_tags_written : forall o m, Forall (tag_ok o) m -> NoDup (map fst m) ->
+  exists m', parse_tags o (tags_text o m) = Ok m' /\ Permutation m m' /\ NoDup (map fst m').
+Proof.
+  intros o m Hok Hnd. destruct (tags_text_perm o m) as [m' [Ht Hp]].
+  assert (Hnd' : NoDup (map fst m')).
+  { eapply Permutation_NoDup; [|exact Hnd]. now apply Permutation_map. }
+  exists m'. split; [|split; assumption].
+  rewrite Ht. unfold parse_tags. rewrite parse_tags_texts; [reflexivity| |exact Hnd'].
+  eapply Permutation_Forall; eassumption.
+Qed.
+
+(* ================================================================== *)
+(* the written line                                                    *)
+
+Definition line (o : foracle) (r : sam) : bytes :=
+  join_with [TAB] (fields11 r ++ tags_text o (s_tags r)).
+
+Lemma write_line : forall o r, write o r = line o r ++ [LF].
+Proof.
+  intros o r. unfold write, write_calls, line. cbn [concat].
+  rewrite concat_app. cbn [concat]. rewrite app_nil_r. rewrite app_assoc. f_equal.
+  rewrite <- join_with_snoc by discriminate. reflexivity.
+Qed.
+
+Lemma tags_text_clean : forall o m, Forall (tag_ok o) m -> Forall tsv_clean (tags_text o m).
+Proof.
+  intros o m H. unfold tags_text.
+  eapply Permutation_Forall; [symmetry; apply sort_strings_perm|].
+  apply Forall_map. eapply Forall_impl; [|exact H]. intros t Ht. now apply tag_text_clean.
+Qed.
+
+Lemma fields_clean : forall o r, sam_ok o r ->
+  Forall tsv_clean (fields11 r ++ tags_text o (s_tags r)).
+Proof.
+  intros o r H. apply Forall_app. split.
+  - unfold fields11. destruct H.
+    repeat (constructor; [first [assumption | apply itoa_clean]|]). constructor.
+  - apply tags_text_clean. apply H.
+Qed.
+
+Lemma fields_nosep : forall o r c, sam_ok o r -> In c [TAB; CR; LF] ->
+  Forall (nosep c) (fields11 r ++ tags_text o (s_tags r)).
+Proof.
+  intros o r c H Hc. eapply Forall_impl; [|apply fields_clean; exact H].
+  intros s Hs. eapply clean_nosep; eassumption.
+Qed.
+
+Lemma line_nosep_lf : forall o r, sam_ok o r -> nosep LF (line o r).
+Proof.
+  intros o r H. unfold line. apply nosep_join.
+  - repeat constructor.
+  - apply fields_nosep; [assumption|]. right; right; now left.
+Qed.
+
+Lemma line_nosep_cr : forall o r, sam_ok o r -> nosep CR (line o r).
+Proof.
+  intros o r H. unfold line. apply nosep_join.
+  - repeat constructor.
+  - apply fields_nosep; [assumption|]. right; now left.
+Qed.
+
+Lemma line_head : forall o r, exists rest, line o r = s_qname r ++ TAB :: rest.
+Proof.
+  intros o r. unfold line, fields11. cbn [app]. rewrite join_with_cons. cbn [app].
+  eexists. reflexivity.
+Qed.
+
+Lemma parse_line_written : forall o r, sam_ok o r ->
+  exists r', parse_line o (fields11 r ++ tags_text o (s_tags r)) = Ok r' /\ sam_eq r r'.
+Proof.
+  intros o r H.
+  destruct (parse_tags_written o (s_tags r) (ok_tags _ _ H) (ok_keys _ _ H)) as [m' [Hp [Hperm Hnd]]].
+  exists {| s_qname := s_qname r; s_flag := s_flag r; s_rname := s_rname r; s_pos := s_pos r;
+            s_mapq := s_mapq r; s_cigar := s_cigar r; s_rnext := s_rnext r; s_pnext := s_pnext r;
+            s_tlen := s_tlen r; s_seq := s_seq r; s_qual := s_qual r; s_tags := m' |}.
+  split.
+  - unfold fields11. cbn [app]. unfold parse_line, parse_ints.
+    cbn [length Nat.eqb parse_ints_loop].
+    rewrite !atoi_itoa by apply H. cbn [obind]. rewrite Hp. reflexivity.
+  - unfold sam_eq. cbn. repeat split; try reflexivity; assumption.
+Qed.
+
+Lemma process_line_written : forall o r, sam_ok o r ->
+  exists r', process_line o (line o r) = [Rec (Aln r')] /\ sam_eq r r'.
+Proof.
+  intros o r H. destruct (parse_line_written o r H) as [r' [Hp He]].
+  exists r'. split; [|exact He].
+  unfold process_line. rewrite drop_cr_nosep by now apply line_nosep_cr.
+  destruct (line_head o r) as [rest Hl].
+  assert (Hsplit : split_on TAB (line o r) = fields11 r ++ tags_text o (s_tags r)).
+  { unfold line. apply split_join; [discriminate|]. apply fields_nosep; [assumption|now left]. }
+  destruct (line o r) as [|c t] eqn:El.
+  - destruct (s_qname r); discriminate.
+  - assert (Hc : (c =? 64) = false).
+    { pose proof (ok_qname_at _ _ H) as Hat. destruct (s_qname r) as [|q qs].
+      - cbn [app] in Hl. injection Hl as -> _. reflexivity.
+      - cbn [app] in Hl. injection Hl as -> _. cbn [not_at] in Hat. now apply N.eqb_neq. }
+    rewrite Hc, Hsplit, Hp. reflexivity.
+Qed.
+
+(* parse_line never panics: parse_ints is always called with five strings and
+   five destinations. *)
+Lemma parse_ints_loop_length : forall strs zs, parse_ints_loop strs = Ok zs -> length zs = length strs.
+Proof.
+  induction strs as [|s strs IH]; intros zs H; cbn [parse_ints_loop] in H.
+  - injection H as <-. reflexivity.
+  - destruct (atoi s); [|discriminate].
+    destruct (parse_ints_loop strs) as [zs'| |]; cbn [obind] in H; try discriminate.
+    injection H as <-. cbn [length]. now rewrite (IH zs').
+Qed.
+
+Lemma parse_ints_loop_no_panic : forall strs, parse_ints_loop strs <> Panic.
+Proof.
+  induction strs as [|s strs IH]; cbn [parse_ints_loop]; [discriminate|].
+  destruct (atoi s); [|discriminate].
+  destruct (parse_ints_loop strs); cbn [obind]; congruence.
+Qed.
+
+Lemma parse_tags_from_no_panic : forall o vs m, parse_tags_from o m vs <> Panic.
+Proof.
+  intros o vs. induction vs as [|f vs IH]; intro m; cbn [parse_tags_from]; [discriminate|].
+  destruct (split_tag f) as [[[name ty] v]|]; [|discriminate].
+  destruct (parse_tag_value o ty v); [apply IH|discriminate].
+Qed.
+
+Lemma parse_line_no_panic : forall o l, parse_line o l <> Panic.
+Proof.
+  intros o l. unfold parse_line.
+  do 11 (destruct l as [|? l]; [discriminate|]).
+  unfold parse_ints. cbn [length Nat.eqb].
+  match goal with |- context [parse_ints_loop ?x] =>
+    pose proof (parse_ints_loop_length x) as Hlen;
+    pose proof (parse_ints_loop_no_panic x) as Hnp;
+    destruct (parse_ints_loop x) as [zs| |] end; cbn [obind]; try congruence.
+  specialize (Hlen zs eq_refl). cbn [length] in Hlen.
+  do 5 (destruct zs as [|? zs]; [discriminate|]). destruct zs; [|discriminate].
+  unfold parse_tags.
+  pose proof (parse_tags_from_no_panic o l []) as Ht.
+  destruct (parse_tags_from o [] l); cbn [obind]; congruence.
+Qed.
